@@ -105,6 +105,8 @@ type SpecEnv struct {
 
 type specError struct{ msg string }
 
+var namedFormulas = map[*Term]*Term{}
+
 func (env *SpecEnv) errf(e *Expr, f string, a ...any) {
 	panic(unsupported{fmt.Sprintf("%s:%d: spec: %s", shortFile(e.File), e.Line, fmt.Sprintf(f, a...))})
 }
@@ -188,6 +190,21 @@ func (env *SpecEnv) eval(e *Expr) SVal {
 		return env.evalBin(e)
 	case "cond":
 		c := env.boolean(e.Args[0])
+		if c.hasQ && !c.hasBV {
+			// a quantified condition inside a term: name it by a Boolean constant (defined by a global fact)
+			if n, ok := namedFormulas[c]; ok {
+				c = n
+			} else {
+				n := Fresh("qc", "Bool")
+				namedFormulas[c] = n
+				if env.x.dry == 0 {
+					env.x.facts = append(env.x.facts, Eq(n, c))
+				} else {
+					delete(namedFormulas, c)
+				}
+				c = n
+			}
+		}
 		a := env.eval(e.Args[1])
 		b := env.eval(e.Args[2])
 		a, b = env.unifyNil(a, b, e)
@@ -741,6 +758,13 @@ func (env *SpecEnv) evalCall(e *Expr) SVal {
 			env.errf(e, "no method value %s.%s is ever taken in /repo", a.GT, e.Args[1].Name)
 		}
 		return SVal{T: Mk(sortFn, Int(int64(env.x.fnID(f))), env.x.boundEnv(env.st, a.T, a.GT))}
+	case "fnenv":
+		// fnenv(f): the environment of a function value (for a context.CancelFunc: the context it cancels)
+		a := env.eval(e.Args[0])
+		if a.T == nil || a.T.Sort != sortFn {
+			env.errf(e, "fnenv() of a non-function")
+		}
+		return SVal{T: Acc(a.T, 1)}
 	case "group":
 		// group(g): the identity of the sync.Group held in local variable g
 		a := env.eval(e.Args[0])
